@@ -228,15 +228,28 @@ def one_split(ctx, Network, A, w, W, directed, v, p, cid, measures,
         if ru.random() < 0.3:
             # the original network object has a past: it was analysed with
             # other node weights before it got the present ones
+            # ... and (if it has a link attribute) with other values of that
+            # attribute under the same name
             w_old = G.pos_weights(ru, n, "loguni")
-            n0 = mk(Network, A, w_old, W, directed)
-            for mm, kw, _, need in [measures[i] for i in
-                                    ru.permutation(len(measures))[:4]]:
+            W_old = None if W is None else W * 1.5 + (W != 0) * 0.25
+            n0 = mk(Network, A, w_old, W_old, directed)
+            keyed = [x for x in measures if "key" in x[1]]
+            plain = [measures[i] for i in ru.permutation(len(measures))[:4]]
+            if W is not None and keyed:
+                plain += [keyed[i] for i in
+                          ru.permutation(len(keyed))[:3]]
+            for mm, kw, _, need in plain:
                 if "key" in kw and W is None or "arenas" in mm or \
                         "newman" in mm:
                     continue
                 ctx.call(getattr(n0, mm), **kw)
             n0.node_weights = w
+            if W is not None:
+                # (the keyed measures once more with the final node weights,
+                #  so that only the attribute changes afterwards)
+                for mm, kw, _, need in keyed[:3]:
+                    ctx.call(getattr(n0, mm), **kw)
+                n0.set_link_attribute("w", W)
             ctx.count("originals_used_before")
         else:
             n0 = mk(Network, A, w, W, directed)
@@ -421,6 +434,29 @@ def run(ctx):
                 one_split(ctx, Network, A, w, W, True, v,
                           props(r, 4)[(bits + v) % 4], cid, dmeas,
                           crosscheck=(v == 0))
+    # ---- sizes around powers of two (blocked / tiled implementations) ---
+    sizes = [127, 128, 129, 255, 256, 257] if ctx.thorough else [127, 128,
+                                                                 129]
+    for j, n0 in enumerate(sizes):
+        if not ctx.mine(j):
+            continue
+        cid = f"pow2:{n0}"
+        if not ctx.want(cid):
+            continue
+        r = ctx.rng("pow2", n0)
+        A = G.random_connected(r, n0, n0)
+        # a little denser than a tree, still sparse
+        extra = np.triu(r.random((n0, n0)) < 4.0 / n0, 1)
+        A = ((A + extra + extra.T) > 0).astype(np.int8)
+        np.fill_diagonal(A, 0)
+        w = G.pos_weights(r, n0)
+        meas = [x for x in NET if "arenas" not in x[0]
+                and "newman" not in x[0] and "key" not in x[1]]
+        ctx.count("power_of_two_sizes")
+        with ctx.guard(600):
+            for v in (n0 - 1, int(r.integers(0, n0))):
+                one_split(ctx, Network, A, w, None, False, v, 0.3, cid, meas,
+                          crosscheck=False)
     # ---- random, iterated splits --------------------------------------
     k = 0
     cap = 30000 if ctx.thorough else 2400
